@@ -369,7 +369,70 @@ var probes = []struct {
 	{"uncaught_in_b", nil, `"before-throw"`},
 }
 
+// sameNames builds a program that declares a small world of classes,
+// interfaces, functions and constants under FIXED names; variant tags and
+// structural choices (which class overrides or lacks which method) differ
+// between program A and program B. On a fresh VM, B must see only its own world.
+func sameNames(r *verifsim.Rng, tag string, probe bool) string {
+	var b strings.Builder
+	b.WriteString("<?php\n")
+	baseHasArea := r.Intn(2) == 0
+	childOverrides := r.Intn(2) == 0
+	childHasExtra := r.Intn(2) == 0
+	fmt.Fprintf(&b, "interface Named { const KIND = \"%s-kind\"; }\n", tag)
+	fmt.Fprintf(&b, "class Shape implements Named {\n  public $label = \"%s-label\";\n  public static $count = \"%s-static\";\n  const SIDES = \"%s-sides\";\n  public function name() { return \"%s-shape\"; }\n", tag, tag, tag, tag)
+	if baseHasArea {
+		fmt.Fprintf(&b, "  public function area() { return \"%s-area\"; }\n", tag)
+	}
+	fmt.Fprintf(&b, "  public static function make() { return \"%s-make\"; }\n}\n", tag)
+	b.WriteString("class Square extends Shape {\n")
+	if childOverrides {
+		fmt.Fprintf(&b, "  public function name() { return \"%s-square\"; }\n", tag)
+	}
+	if childHasExtra {
+		fmt.Fprintf(&b, "  public function perimeter() { return \"%s-perimeter\"; }\n", tag)
+	}
+	b.WriteString("}\nclass Tiny extends Square { }\n")
+	fmt.Fprintf(&b, "function helper_fn() { return \"%s-fn\"; }\n", tag)
+	fmt.Fprintf(&b, "function counting() { static $n = 0; $n++; return \"%s-\" . $n; }\n", tag)
+	if have("define") {
+		fmt.Fprintf(&b, "define(\"WORLD_CONST\", \"%s-const\");\n", tag)
+	}
+	// exercise everything (A warms whatever caches exist; B's lines are the probes)
+	calls := []struct{ label, code string }{
+		{"inherited_method", `(new Square())->name()`},
+		{"deep_inherited_method", `(new Tiny())->name()`},
+		{"maybe_missing_method", `(method_exists(new Tiny(), "area") ? (new Tiny())->area() : "no-area")`},
+		{"maybe_missing_method2", `(method_exists(new Square(), "perimeter") ? (new Square())->perimeter() : "no-perimeter")`},
+		{"static_method", `Square::make()`},
+		{"static_property", `Shape::$count`},
+		{"class_constant", `Square::SIDES`},
+		{"default_property", `(new Tiny())->label`},
+		{"function", `helper_fn()`},
+		{"static_local", `counting() . counting()`},
+		{"instanceof", `((new Tiny()) instanceof Named ? "named" : "not-named")`},
+		{"json_of_object", `json_encode(new Square())`},
+	}
+	if have("define", "constant") {
+		calls = append(calls, struct{ label, code string }{"define_constant", `constant("WORLD_CONST")`})
+	}
+	for _, c := range calls {
+		if strings.Contains(c.code, "method_exists") && !have("method_exists") {
+			continue
+		}
+		if probe {
+			fmt.Fprintf(&b, "echo \"%s=\", %s, \"\\n\";\n", c.label, c.code)
+		} else {
+			fmt.Fprintf(&b, "$x = %s;\n", c.code)
+		}
+	}
+	return b.String()
+}
+
 func genPair(r *verifsim.Rng) (a, b string, parts []string) {
+	if r.Intn(3) == 0 {
+		return sameNames(r, "A", false), sameNames(r, "B", true), []string{"same_named_definitions"}
+	}
 	var as, bs []int
 	for i := range leavers {
 		if have(leavers[i].need...) {
